@@ -252,8 +252,18 @@ class Invocation:
 SEPARATE = ("copy", "dict")      # call modes that hand the filter a separate glyph set
 
 
-def invoke(filt, cfg, spec, target, mode, module, fonts=None):
-    """`fonts`: run on these font objects (a second run on the same fonts) instead of fresh ones."""
+def shift_base(views):
+    """Edits the separate glyph sets only: the base glyph 'a' is moved and widened (the font objects
+    stay as they are), so that a second call sees other glyph data than the first one did."""
+    for v in views:
+        if "a" in v:
+            v["a"].move((64, 0))
+            v["a"].width = v["a"].width + 32
+
+
+def invoke(filt, cfg, spec, target, mode, module, fonts=None, edit=None):
+    """`fonts`: run on these font objects (a second run on the same fonts) instead of fresh ones.
+    `edit`: applied to the separate glyph sets before the call."""
     from ufo2ft.util import _GlyphSet
     interp = CONFIG[cfg][2]
     if fonts is None:
@@ -268,6 +278,8 @@ def invoke(filt, cfg, spec, target, mode, module, fonts=None):
             gss = [dict(gs) for gs in gss]
             assert all(type(gs) is dict and not hasattr(gs, "lib") for gs in gss)
         views = gss
+        if edit is not None:
+            edit(views)
     else:
         gss = None
         views = [f.layers.defaultLayer for f in fonts]
@@ -492,6 +504,30 @@ class C14(Property):
                         reused={"exc": inv.exc, "returned": inv.ret},
                         glyph_diff=S.diff(fresh[ti].after, inv.after, limit=6)))
                     break
+        # clause (4c): ONE filter object called twice with the SAME font object(s) but other glyph sets
+        # (what a build tool does that compiles one UFO to several formats with one filter list)
+        if mode in SEPARATE:
+            for t, inv0 in zip(targets, fresh):
+                if inv0.exc is not None or inv0.font_diff:
+                    continue
+                fonts = [B.build_font(font_spec(k), module) for k in t]
+                filt = make_filter(cfg, spec)
+                first = invoke(filt, cfg, spec, t, mode, module, fonts=fonts)
+                if first.exc is not None or first.font_diff:
+                    continue
+                second = invoke(filt, cfg, spec, t, mode, module, fonts=fonts, edit=shift_base)
+                ref = invoke(make_filter(cfg, spec), cfg, spec, t, mode, module, edit=shift_base)
+                ctrs["invocations"] += 3
+                ctrs["same_font_other_glyphset_compared"] = ctrs.get("same_font_other_glyphset_compared", 0) + 1
+                nsub += 1
+                if record(second) != record(ref):
+                    what = ("exception" if second.exc != ref.exc else
+                            "returned-set" if second.ret != ref.ret else "glyphs")
+                    viols.add(violation(
+                        "history-dependent", {"filter": cfg, "what": what, "same_font": True},
+                        target=t, spec=spec, mode=mode, fresh={"exc": ref.exc, "returned": ref.ret},
+                        reused={"exc": second.exc, "returned": second.ret, "message": second.message},
+                        glyph_diff=S.diff(ref.after, second.after, limit=6)))
         # clause (4b): the order of the master list does not matter
         if interp:
             for t, inv in zip(targets, fresh):
